@@ -28,10 +28,10 @@ PROGS = [
      "root": [["rel", fx(1.0), 0, 5]],
      "nodes": [[["rel", fx(3.0), 1, 5]], [["rel", fx(3.0), 2, 5]], [["rel", fx(5.0), 3, 5]], []]},
 ]
-BOUNDS = [[fx(4.0), fx(8.5)], [4, 9], [fx(104.0), fx(108.5)]]
-ALPHABET = ["init", "start", "step", "stop", "rut0", "rut1", "ruti0", "ruti1", "endrep", "cleanup"]
+BOUNDS = [[fx(4.0), fx(8.5), fx(15.0)], [4, 9, 14], [fx(104.0), fx(108.5), fx(130.0)]]   # the third lies beyond the end
+ALPHABET = ["init", "start", "step", "stop", "rut0", "rut1", "ruti0", "ruti1", "endrep", "cleanup", "rut2"]
 
-RULE = ("(A) ALL command sequences over the 10-letter alphabet {initialize, start, step, stop, run_up_to(t1|t2), "
+RULE = ("(A) ALL command sequences over the 11-letter alphabet {initialize, start, step, stop, run_up_to(t1|t2|t3 beyond the end), "
         "run_up_to_including(t1|t2), end_replication, cleanup} up to length 4 (quick) / 6 (thorough) on the float model and 3 / 5 on the int model plus Hypothesis "
         "sequences of length <= 10, on three fixed models (a float-clock replication that starts at 100; float clock: events at 1,4,7 and 12 beyond the end 10, warm-up "
         "2.5; int clock: ties and two events at exactly the end); after each command the harness waits for structural "
@@ -52,7 +52,7 @@ ASSUMPTIONS = [
     "cleanup() issued from a listener of a command that is still in progress is outside its documented use and not generated",
 ]
 NONTRIVIAL_FLOOR = 0.15
-EXHAUSTIVE_NOTE = "all command sequences up to length 4 (quick) / 6 (thorough) on the float model and 3 / 5 on the int model over the 10-letter alphabet, both models"
+EXHAUSTIVE_NOTE = "all command sequences up to length 4 (quick) / 6 (thorough) on the float model and 3 / 5 on the int model over the 11-letter alphabet, all three models"
 
 
 def budget(tier):
